@@ -2,6 +2,8 @@ package main
 
 import (
 	"fmt"
+	"go/ast"
+	"go/types"
 	"sort"
 )
 
@@ -61,6 +63,30 @@ func init() {
 		sort.Strings(keys)
 		for _, k := range keys {
 			fmt.Println(k, len(cnt[k]), cnt[k][0])
+		}
+	}
+}
+
+func init() {
+	dumpers["mapranges"] = func(p *Prog, m *Model) {
+		for _, pk := range p.prodPkgs() {
+			for _, f := range pk.Syntax {
+				ast.Inspect(f, func(n ast.Node) bool {
+					rs, ok := n.(*ast.RangeStmt)
+					if !ok {
+						return true
+					}
+					t := pk.TypesInfo.TypeOf(rs.X)
+					if t == nil {
+						return true
+					}
+					if _, ok := t.Underlying().(*types.Map); ok {
+						fd := enclosingDecl(f, rs.Pos())
+						fmt.Printf("%s %s range %s : %s\n", p.pos(rs.Pos()), declName(pk, fd), types.ExprString(rs.X), typeShort(t))
+					}
+					return true
+				})
+			}
 		}
 	}
 }
